@@ -31,6 +31,7 @@ COMPILER_REPLAYS = {
     "u_block": ["replay/c17/method_value.sh"],
     "u_dynpayload": ["replay/c17/dyn_numeric_literal.sh"],
     "u_dynimpl": ["replay/c17/dyn_generic_instance.sh"],
+    "u_traitname": ["replay/c17/trait_type_name.sh"],
     "u_inherent": ["replay/c17/dup_inherent.sh", "replay/c17/overlap_inherent.sh", "replay/c17/variant_method.sh"],
     "u_calllower": ["replay/c11/paren_call.sh", "replay/c11/neg_nullary.sh", "replay/c11/tuple_nested.sh"],
     "u_ceffect": ["replay/c04/go_fn_value.sh"],
